@@ -74,7 +74,7 @@ def detect(sid, checks):
     try:
         for c in checks:
             t = time.time()
-            rc, out = sh('./check %s --tier quick' % c, cwd=V, timeout=7200)
+            rc, out = sh('./check %s --tier quick' % c, cwd=V, timeout=7200, env={'VERIF_EVIDENCE_DIR': os.path.join(V, '.cache', 'evidence-seeded')})
             lines = [l for l in out.split('\n') if l.startswith('VIOLATION') or l.startswith('  violation') or l.startswith('  broken')]
             results[c] = {'exit': rc, 'detected': rc == 1, 'wall_s': round(time.time() - t, 1), 'lines': lines[:6]}
             print(sid, c, 'DETECTED' if rc == 1 else ('missed' if rc == 0 else 'rc=%d' % rc), '%.0fs' % (time.time() - t)); 
